@@ -100,6 +100,10 @@ func (u *echoUpstream) handle(w http.ResponseWriter, r *http.Request) {
 		h.Set("Cache-Control", "max-age="+strconv.Itoa(cc))
 	}
 	h.Set("X-Upstream", u.name)
+	h.Set("Vary", "Accept-Encoding, X-Client-Kind")
+	h.Set("Last-Modified", "Wed, 21 Oct 2015 07:28:00 GMT")
+	h.Add("Link", "</a>; rel=preload")
+	h.Add("Link", "</b>; rel=preload, </c>; rel=prefetch")
 	h.Set("X-Serial", u.name+"-"+strconv.Itoa(serial))
 	h.Set("X-Echo-Path", r.URL.EscapedPath())
 	h.Set("X-Echo-Query", r.URL.RawQuery)
